@@ -425,6 +425,9 @@ func init() {
 	scenarios["c02_loadfault"] = func(raw json.RawMessage) *vrt.Scenario {
 		return &vrt.Scenario{Name: "c02_loadfault", Main: loadFaultMain, FreeChoices: true, NoTimerAlt: true,
 			Classify: func(r *vrt.Result) []string {
+				if r.Status == vrt.StatusCrash && strings.Contains(r.Outcome, "no such xattr") {
+					return []string{"a vBucket whose document exists without a checkpoint xattr (no checkpoint) crashed the start-up: " + r.Crash.Value + " (" + r.Outcome + ")"}
+				}
 				if r.Status == vrt.StatusCrash || r.Status == vrt.StatusOK {
 					return nil // failing fast is fine; a session that starts is checked by the scenario itself
 				}
@@ -438,7 +441,7 @@ func loadFaultMain() {
 	reset := []string{"earliest", "latest"}[vrt.Choose(2, true, "auto-reset")]
 	subset := 1 + vrt.Choose(7, true, "checkpointed-subset")
 	faultVb := uint16(vrt.Choose(3, true, "faulted-lookup"))
-	kind := vrt.Choose(3, true, "fault")
+	kind := vrt.Choose(4, true, "fault") // 3: no fault, but the document exists WITHOUT the checkpoint xattr
 	o := EnvOpts{Vbs: 3, CheckpointType: "manual", AutoReset: reset, WrapMeta: true}
 	c := NewCluster(&o)
 	stored := map[uint16]c02Tuple{}
@@ -451,7 +454,16 @@ func loadFaultMain() {
 		stored[vb] = t
 		seedCheckpoint(c, srcBucket, "g", vb, t.uuid, t.seq, t.s0, t.s1)
 	}
-	armed := true
+	if kind == 3 {
+		// the state a first save leaves behind when it is interrupted between creating the document and writing
+		// the xattr: the vBucket has NO checkpoint
+		delete(stored, faultVb)
+		b := c.Bucket(srcBucket)
+		// (a document seeded above for this vBucket is replaced by a bare one)
+		b.PutDoc(ckptKey("g", faultVb), []byte("{}"))
+		b.DropXattrs(ckptKey("g", faultVb))
+	}
+	armed := kind != 3
 	c.Fault = func(r *gocbcore.SimRequest) gocbcore.SimAnswer {
 		if armed && r.Kind == "lookupin" && r.Key == ckptKey("g", faultVb) {
 			armed = false
@@ -466,10 +478,23 @@ func loadFaultMain() {
 		}
 		return gocbcore.SimAnswer{}
 	}
-	desc := fmt.Sprintf("reset=%s subset=%03b lookup of vb%d answered with %s", reset, subset, faultVb, []string{"temporary failure", "internal error", "silence"}[kind])
+	desc := fmt.Sprintf("reset=%s subset=%03b lookup of vb%d answered with %s", reset, subset, faultVb, []string{"temporary failure", "internal error", "silence", "'no such xattr' (the document exists without a checkpoint)"}[kind])
+	vrt.SetOutcome(desc)
 	e := NewEnv(c, o)
 	e.Stream.Open()
 	c.WaitIdle()
+	if kind == 3 {
+		// not a fault: the vBucket simply has no checkpoint; the session must start
+		if len(c.RequestsOf("openstream")) != 3 {
+			vrt.Failf("%s: %d of 3 vBuckets were requested", desc, len(c.RequestsOf("openstream")))
+		}
+		anyStored := len(stored) > 0
+		for _, r := range c.RequestsOf("openstream") {
+			if r.Vb == faultVb && (reset == "earliest" || anyStored) && (r.Args[1] != 0 || r.Args[2] != 0 || r.Args[4] != 0 || r.Args[5] != 0) {
+				vrt.Failf("%s: vb%d has no checkpoint but was requested from (vbuuid %d, seq %d, snapshot [%d,%d])", desc, r.Vb, r.Args[1], r.Args[2], r.Args[4], r.Args[5])
+			}
+		}
+	}
 	// the session started: every request must name what is persisted
 	for _, r := range c.RequestsOf("openstream") {
 		got := c02Tuple{uuid: r.Args[1], seq: r.Args[2], s0: r.Args[4], s1: r.Args[5]}
